@@ -15,7 +15,9 @@ import (
 	"github.com/bbva/qed/zzverif/models"
 	"github.com/bbva/qed/zzverif/rt"
 	"github.com/hashicorp/raft"
+	"github.com/prometheus/client_golang/prometheus"
 	"google.golang.org/grpc"
+	"time"
 )
 
 // zzGroup: a cluster whose entries are delivered by calling the real Apply of
@@ -515,3 +517,106 @@ func ZZReplayOnFreshReplica(label string) bool {
 
 // ZZEventDigest is the digest the node computes for an event.
 func ZZEventDigest(n *RaftNode, event []byte) hashing.Digest { return n.hasherF().Do(event) }
+
+// ---- C10, second interleaving: the query has already passed its synchronisation point when the insertion arrives ----
+
+// zzCounter stands in for the node's query counters (a prometheus.Counter); the
+// node bumps it right after the point where a query synchronises with the apply
+// path, which makes it an interleaving point available in both worlds.
+type zzCounter struct {
+	prometheus.Counter
+	onInc func()
+}
+
+func (c *zzCounter) Inc() {
+	if c.onInc != nil {
+		f := c.onInc
+		c.onInc = nil
+		f()
+	}
+}
+func (c *zzCounter) Add(float64) {}
+
+func ZZC10Overlap() {
+	g := zzNewGroup(1)
+	n := g.nodes[0]
+	prior := 1 + rt.Choose("prior-events", rt.Param("PRIOR", 2))
+	for k := 0; k < prior; k++ {
+		g.commit(byte(0x10+k), 1)
+	}
+	issued := append([]*balloon.Snapshot{}, g.snaps[0]...)
+	digs := append([]hashing.Digest{}, g.digs...)
+	kind := rt.Choose("query", 3)
+	e := rt.Choose("event", len(digs))
+	end := uint64(rt.Choose("end", len(digs)+1))
+	start := uint64(rt.Choose("start", int(end)+1))
+	version := uint64(rt.Choose("version", len(digs)+1))
+	query := func() {
+		switch kind {
+		case 0:
+			var mp *balloon.MembershipProof
+			var err error
+			if rt.NoPanic(func() { mp, err = n.QueryDigestMembership(digs[e]) }, "membership-query-overlapping-insert") && err == nil {
+				cur := int(mp.CurrentVersion)
+				if cur < len(issued) {
+					snap := &balloon.Snapshot{HistoryDigest: issued[cur].HistoryDigest, HyperDigest: issued[cur].HyperDigest, Version: uint64(cur)}
+					rt.Assert(mp.DigestVerify(digs[e], snap), "overlapping-membership-proof-verifies")
+				}
+			}
+		case 1:
+			rt.NoPanic(func() { n.QueryDigestMembershipConsistency(digs[e], version) }, "membership-consistency-query-overlapping-insert")
+		case 2:
+			var ip *balloon.IncrementalProof
+			var err error
+			if rt.NoPanic(func() { ip, err = n.QueryConsistency(start, end) }, "consistency-query-overlapping-insert") && err == nil && int(end) < len(issued) {
+				rt.Assert(ip.Verify(issued[start], issued[end]), "overlapping-consistency-proof-verifies")
+			}
+		}
+	}
+	// the next committed entry, ready to be applied
+	var hs []hashing.Digest
+	h := models.EventHasherF(zzBits)()
+	for _, ev := range zzEvents(0x40, 1) {
+		hs = append(hs, h.Do(ev))
+	}
+	cmd := newCommand(addEventCommandType)
+	cmd.encode(hs)
+	entry := zzEntry{index: g.next, data: cmd.data}
+	ctr := &zzCounter{}
+	n.metrics.DigestMembershipQueries, n.metrics.MembershipQueries, n.metrics.IncrementalQueries = ctr, ctr, ctr
+
+	if rt.Symbolic() {
+		applyWaited := false
+		ctr.onInc = func() {
+			// the query is past its synchronisation point: the insertion arrives now; its store
+			// write is still in flight while the query goes on
+			g.stores[0].DeferWrites = true
+			if !rt.Concurrently(func() { g.apply(0, entry) }) {
+				applyWaited = true // the apply path has to wait for the query
+			}
+		}
+		query()
+		g.stores[0].Flush()
+		if applyWaited {
+			g.apply(0, entry)
+		}
+		rt.Cover(applyWaited, "insertion-waited-for-the-query")
+		return
+	}
+	// natively: real goroutines parked at the same two points
+	atCounter, resume := make(chan struct{}), make(chan struct{})
+	inWindow, finish, applied, done := make(chan struct{}), make(chan struct{}), make(chan struct{}), make(chan struct{})
+	ctr.onInc = func() { close(atCounter); <-resume }
+	go func() { query(); close(done) }()
+	<-atCounter
+	g.stores[0].BeforeMutate = func() { close(inWindow); <-finish }
+	go func() { g.apply(0, entry); close(applied) }()
+	select {
+	case <-inWindow: // the insertion got in while the query is in flight
+	case <-time.After(300 * time.Millisecond): // it is waiting for the query
+	}
+	close(resume)
+	<-done
+	close(finish)
+	<-applied
+}
